@@ -92,6 +92,12 @@ def _explore(unit, par):
     try:
         fi = source.get_func(unit.func)
         out["func_hash"] = fi.source_hash()
+        exp = unit.options.get("expect_loops")
+        if exp is not None:
+            got = sorted(fi.loop_keys.values())
+            if got != sorted(exp):
+                raise KeyError(f"contract anchor lost: loop structure of {fi.name} changed (expected {sorted(exp)}, found {got}); "
+                               "the loop invariants of the sidecar contract no longer correspond to the code")
         ex = Executor(unit)
         if par is not None:
             ex.par_k, ex.sem = 1, par[0]
@@ -99,6 +105,18 @@ def _explore(unit, par):
         p.par_on = not unit.options.get("par_after")
         ex.func_stack = [fi]
         args = unit.setup(ex, p) or {}
+        # parameters the contract does not know about (added by a change to the code): bound to their declared default,
+        # or left arbitrary when they have none
+        a_ = fi.node.args
+        pos_ = list(a_.posonlyargs) + list(a_.args)
+        dflt_ = dict(zip([x.arg for x in pos_][len(pos_) - len(a_.defaults):], a_.defaults))
+        dflt_.update({x.arg: d for x, d in zip(a_.kwonlyargs, a_.kw_defaults) if d is not None})
+        for prm in pos_ + list(a_.kwonlyargs):
+            if prm.arg not in p.env:
+                if prm.arg in dflt_:
+                    p.env[prm.arg] = ex.eval_default(p, dflt_[prm.arg], {})
+                else:
+                    p.env[prm.arg] = SV(fresh("param_" + prm.arg))
         H0 = p.snap()
         pre = p.clone()
         body = unit.body_of(fi) if unit.body_of else fi.node.body
